@@ -1,6 +1,7 @@
 package props
 
 import (
+	"sort"
 	"fmt"
 	"math/rand"
 	"strings"
@@ -321,12 +322,31 @@ func c13Edge(c *core.C) {
 			base.To = append(base.To, t)
 		}
 	}
+	if r.Intn(3) == 0 && len(base.To) > 0 {
+		// a target list that names a target more than once (a legal value): every arrangement of the same targets -
+		// repeats adjacent or apart - is the same edge
+		base.To = append(base.To, base.To[r.Intn(len(base.To))])
+		if r.Intn(2) == 0 {
+			base.To = append(base.To, base.To[r.Intn(len(base.To))])
+		}
+		c.Cover("edge-with-repeated-targets")
+	}
 	perm := gen.Clone(base)
-	r.Shuffle(len(perm.To), func(i, j int) { perm.To[i], perm.To[j] = perm.To[j], perm.To[i] })
-	c.Evals(3)
-	if !base.Equal(base) || !base.Equal(perm) || !perm.Equal(base) {
-		c.Violatef("edge-order-sensitive", fmt.Sprint(base), "edge and permuted-target copy compare unequal")
-		return
+	for try := 0; try < 4; try++ {
+		r.Shuffle(len(perm.To), func(i, j int) { perm.To[i], perm.To[j] = perm.To[j], perm.To[i] })
+		sorted := gen.Clone(base)
+		sort.Strings(sorted.To)
+		c.Evals(3)
+		if !base.Equal(base) || !base.Equal(perm) || !perm.Equal(base) || !sorted.Equal(perm) || !perm.Equal(sorted) {
+			c.Violatef("edge-order-sensitive", map[string]any{"edge": fmt.Sprint(base), "permuted": fmt.Sprint(perm)}, "an edge and a copy with its targets in another order compare unequal: %v vs %v", base.To, perm.To)
+			return
+		}
+		la := &sbom.NodeList{Nodes: []*sbom.Node{{Id: base.From}}, Edges: []*sbom.Edge{gen.Clone(base)}}
+		lb := &sbom.NodeList{Nodes: []*sbom.Node{{Id: base.From}}, Edges: []*sbom.Edge{gen.Clone(perm)}}
+		if !la.Equal(lb) || !lb.Equal(la) {
+			c.Violatef("list-order-sensitive:edge-targets", map[string]any{"edge": fmt.Sprint(base), "permuted": fmt.Sprint(perm)}, "node lists whose only edge lists the same targets in another order compare unequal: %v vs %v", base.To, perm.To)
+			return
+		}
 	}
 	if len(base.To) >= 2 {
 		c.DistinctStr("edge" + fmt.Sprint(base))
